@@ -170,7 +170,7 @@ deriving Repr, DecidableEq
 /-- `conditionTagsByBinary` answers with a tag: not a time condition (`isTimeCondition`: the
 name lower-cases to "time" and the literal is a string) and the name is a tag of the schema. -/
 def isTagEq (schemaTags : List String) (k : String) : Bool :=
-  k.toLower != "time" && schemaTags.contains k
+  Go.toLower k != "time" && schemaTags.contains k
 
 /-- the AND arm of `getConditionTags` as it was at the pinned commit: every right-hand
 group's tags are appended into each left-hand group. -/
